@@ -7,6 +7,8 @@ import (
 	"flag"
 	"fmt"
 	"os"
+	"regexp"
+	"strconv"
 	"strings"
 
 	"github.com/sdcio/yang-parser/xpath"
@@ -48,29 +50,50 @@ func messageOK(text, msg string) string {
 	if !strings.Contains(msg, text) {
 		return "error text does not quote the expression"
 	}
-	i := strings.LastIndex(msg, " in '")
-	if i < 0 {
-		return "error text marks no position"
-	}
-	rest := msg[i+len(" in '"):]
-	j := strings.LastIndex(rest, "'")
-	if j < 0 {
-		return "error text marks no position"
-	}
-	marked := rest[:j]
-	k := strings.Index(marked, " [X] ")
-	for k >= 0 {
-		if marked[:k]+marked[k+len(" [X] "):] == text {
-			return ""
-		}
-		n := strings.Index(marked[k+1:], " [X] ")
-		if n < 0 {
+	// a position is marked by the expression split in two around a marker "[X]" (with or without a blank on
+	// either side), anywhere in the text, or by a number that is a byte/character offset into the expression
+	sawMarker := false
+	for from := 0; ; {
+		i := strings.Index(msg[from:], "[X]")
+		if i < 0 {
 			break
 		}
-		k += 1 + n
+		i += from
+		from = i + 1
+		sawMarker = true
+		lefts := []string{msg[:i]}
+		if i > 0 && msg[i-1] == ' ' {
+			lefts = append(lefts, msg[:i-1])
+		}
+		rights := []string{msg[i+3:]}
+		if i+3 < len(msg) && msg[i+3] == ' ' {
+			rights = append(rights, msg[i+4:])
+		}
+		for p := 0; p <= len(text); p++ {
+			for _, l := range lefts {
+				if !strings.HasSuffix(l, text[:p]) {
+					continue
+				}
+				for _, r := range rights {
+					if strings.HasPrefix(r, text[p:]) {
+						return ""
+					}
+				}
+			}
+		}
+	}
+	if !sawMarker {
+		if m := offsetRe.FindStringSubmatch(strings.Replace(msg, text, "", -1)); m != nil {
+			if n, err := strconv.Atoi(m[2]); err == nil && n >= 0 && n <= len(text)+1 {
+				return ""
+			}
+		}
+		return "error text marks no position"
 	}
 	return "marked text is not the expression split at a position"
 }
+
+var offsetRe = regexp.MustCompile(`(?i)\b(byte|offset|position|pos|column|col|char|character|index)s?\W{0,3}(\d+)`)
 
 type runOutcome struct {
 	pan      interface{}
